@@ -456,6 +456,85 @@ def strip_logical(js):
     return js
 
 
+# what the generator of the unchanged library draws for a leaf (kind, logical type), as an
+# interval, and the domain outside which the reader's conversion of a logical leaf fails
+_I32 = (-(1 << 31), (1 << 31) - 1)
+_I64 = (-(1 << 63), (1 << 63) - 1)
+_TSM = (0, 253402300799999)
+_GEN_RANGE = {("int", None): _I32, ("int", "date"): (-719162, 2932896), ("int", "time-millis"): (0, 86400000 - 1),
+              ("long", None): _I64, ("long", "time-micros"): (0, 86400000000 - 1),
+              ("long", "timestamp-millis"): _TSM, ("long", "local-timestamp-millis"): _TSM,
+              ("long", "timestamp-micros"): (0, 253402300799999999), ("long", "local-timestamp-micros"): (0, 253402300799999999)}
+_DOMAIN = {("int", "date"): (-719162, 2932896), ("int", "time-millis"): (0, 86400000 - 1), ("long", "time-micros"): (0, 86400000000 - 1),
+           ("long", "timestamp-millis"): (-62135596800000, 253402300799999), ("long", "local-timestamp-millis"): (-62135596800000, 253402300799999),
+           ("long", "timestamp-micros"): (-62135596800000000, 253402300799999999), ("long", "local-timestamp-micros"): (-62135596800000000, 253402300799999999)}
+
+
+def _leaves(node, seen):
+    from .ref.schema import deref
+    from .ref import logical as L
+
+    d = deref(node)
+    if d.kind in ("record", "error"):
+        if d.name in seen:
+            return
+        seen = seen | {d.name}
+        for f in d.fields:
+            yield from _leaves(f.type, seen)
+    elif d.kind == "array":
+        yield from _leaves(d.items, seen)
+    elif d.kind == "map":
+        yield from _leaves(d.values, seen)
+    elif d.kind == "union":
+        for b in d.branches:
+            yield from _leaves(b, seen)
+    elif d.kind in ("int", "long", "string"):
+        yield (d.kind, d.logical if d.logical and L.known(d) else None)
+
+
+def misrouting_explained(node, seen=frozenset()):
+    """True if some union of the schema has a branch holding a logical leaf with a narrow
+    domain next to ANOTHER branch holding a leaf for which the unchanged generator draws raw
+    values of a fitting width outside that domain (the open finding's mechanism).  A long
+    drawn over the whole 64-bit range does not fit an int leaf."""
+    from .ref.schema import deref
+
+    d = deref(node)
+    if d.kind in ("record", "error"):
+        if d.name in seen:
+            return False
+        seen = seen | {d.name}
+        return any(misrouting_explained(f.type, seen) for f in d.fields)
+    if d.kind == "array":
+        return misrouting_explained(d.items, seen)
+    if d.kind == "map":
+        return misrouting_explained(d.values, seen)
+    if d.kind != "union":
+        return False
+    per_branch = [set(_leaves(b, seen)) for b in d.branches]
+    for i, li in enumerate(per_branch):
+        for tgt in li:
+            if tgt == ("string", "uuid"):
+                if any(("string", None) in lj for j, lj in enumerate(per_branch) if j != i):
+                    return True
+                continue
+            if tgt not in _DOMAIN:
+                continue
+            lo, hi = _DOMAIN[tgt]
+            for j, lj in enumerate(per_branch):
+                if j == i:
+                    continue
+                for src in lj:
+                    if src not in _GEN_RANGE or src == tgt:
+                        continue
+                    if tgt[0] == "int" and src[0] == "long":
+                        continue  # (practically) never fits an int leaf
+                    slo, shi = _GEN_RANGE[src]
+                    if slo < lo or shi > hi:
+                        return True
+    return any(misrouting_explained(b, seen) for b in d.branches)
+
+
 @classifier("C20", "generated-raw-value-lands-in-narrower-logical-branch")
 def _c20_logical_branch(fa, v, case, recs, one_schema, sh, seed):
     """gen_data emits raw integers / bytes for logical-typed leaves.  Inside a
@@ -470,6 +549,14 @@ def _c20_logical_branch(fa, v, case, recs, one_schema, sh, seed):
     if "logicalType" not in json.dumps(js):
         return False
     if not any(x in v[1] for x in ("OverflowError", "ValueError", "out of range")):
+        return False
+    # the finding is this mechanism only: a union in which the unchanged generator's raw values
+    # for one branch fall outside the domain of a logical leaf of another branch
+    try:
+        from .ref import schema as RS
+        if not misrouting_explained(RS.build(js)[0]):
+            return False
+    except Exception:
         return False
     return one_schema(sh.__class__("C20", {}), fa, random.Random(seed), strip_logical(js), set()) is None
 
